@@ -651,7 +651,7 @@ fn child_failalloc(ctx: &Ctx) -> ! {
 type CaseFn<'a> = &'a dyn Fn(Fault) -> Obs;
 
 macro_rules! for_ns {
-    ([$($n:ty),*], $N:ident => $body:block) => { $( { type $N = $n; $body } )* };
+    ([$($n:ty),*], $N:ident => $body:block) => { $( { type $N = $n; if <$N as generic_array::typenum::Unsigned>::USIZE <= vcommon::maxn() { $body } } )* };
 }
 
 /// the enumeration shared by C15 and C16: (op, N, E, L, cap)
@@ -700,8 +700,8 @@ fn run_c15(ctx: &mut Ctx) {
             Ok(CaseInfo::new(!d.contains(";N=0;"), o.outcome))
         });
     });
-    // multi-MiB constructions on a 256 KiB stack: one child process per constructor
-    for name in BIG_CASES {
+    // multi-MiB constructions on a 256 KiB stack: one child process per constructor (not under Miri: no process spawning)
+    for name in BIG_CASES.iter().filter(|_| !cfg!(miri)) {
         let desc = format!("C15;big;{name}");
         ctx.case(&desc, || {
             let out = Command::new(self_exe()).args(["--mode", "bigchild", "--case", name]).output().map_err(|e| format!("harness: spawn failed: {e}"))?;
@@ -755,8 +755,9 @@ fn run_c16(ctx: &mut Ctx) {
                 });
             }
         }
-        // every allocation request of the operation failing, each in a child process
-        if d.contains(";N=1024;") || d.contains(";N=100;") {
+        // every allocation request of the operation failing, each in a child process (Miri cannot spawn processes: the
+        // memory-monitor substrate runs the fault-free and the panic cases only)
+        if d.contains(";N=1024;") || d.contains(";N=100;") || cfg!(miri) {
             return;
         }
         for k in 0..reqs.get() {
